@@ -259,6 +259,8 @@ var runFaultExprs = []struct {
 	{"load-json-bad", func() *gen.Node { return gen.NCall("load_json", str("{bad")) }},
 	{"load-json-nonstr", func() *gen.Node { return gen.NCall("load_json", id("a")) }},
 	{"nil+1", func() *gen.Node { return gen.NBin("+", id("undefined_name"), i64(1)) }},
+	{"replace-bad-regex", func() *gen.Node { return gen.NCall("replace", id("message"), str("("), str("x")) }},
+	{"url-decode-bad", func() *gen.Node { return gen.NCall("url_decode", str("%zz")) }},
 	{"list*2", func() *gen.Node { return gen.NBin("*", id("l"), i64(2)) }},
 }
 
@@ -474,6 +476,23 @@ func runFaultCase(t rk.Failer, slot string, src string, span [2]int, name string
 			return // whether it must be an error is C02/C04/C11's business
 		}
 		checkChain(t, slot, rp, rerr, src, span, "run error for "+name)
+		// the same loaded script once more on an equal point: the same report; and the report of the first run is
+		// still what it was (an error value belongs to the run that returned it)
+		first := rerr.Error()
+		firstN := len(rerr.PosChain)
+		pt2 := impl.NewPoint("m", map[string]string{"tg": "v"}, map[string]any{"message": "hello", "f1": int64(3)})
+		rerr2, crash2 := impl.RunV1(s, pt2, nil)
+		if crash2 == nil {
+			if rerr2 == nil {
+				rk.Fail(t, slot, rp, "second run of the loaded script on an equal point gives no error, the first gave %q\nsource: %q", first, src)
+			}
+			if rerr2.Error() != first || len(rerr2.PosChain) != firstN {
+				rk.Fail(t, slot, rp, "second run of the loaded script on an equal point reports %q (%d positions), the first reported %q (%d positions)\nsource: %q", rerr2.Error(), len(rerr2.PosChain), first, firstN, src)
+			}
+			if rerr.Error() != first || len(rerr.PosChain) != firstN {
+				rk.Fail(t, slot, rp, "the error returned by the first run changed while the script ran again: %q -> %q\nsource: %q", first, rerr.Error(), src)
+			}
+		}
 	}
 	evid.Case(nontrivialKey, depth > 0, "error-position/"+map[bool]string{true: "load", false: "run"}[load])
 }
